@@ -598,7 +598,12 @@ impl InnerLocustDB {
                 };
 
                 let span_decode = tracer.start_span("decode");
-                let decoded = col.decode();
+                // Columns that are kept LZ4/Pco compressed in memory are decoded from a decompressed copy
+                let decompressed = col.lz4_or_pco_decoded();
+                let decoded = match &decompressed {
+                    Some(column) => column.decode(),
+                    None => col.decode(),
+                };
                 tracer.end_span(span_decode);
 
                 let span_push = tracer.start_span("push");
